@@ -201,7 +201,13 @@ def load_known(pid):
     p = os.path.join(VERIF, 'known_findings.json')
     if not os.path.exists(p):
         return []
-    return [e for e in json.load(open(p))['findings'] if e['property'] == pid]
+    found = [e for e in json.load(open(p))['findings'] if e['property'] == pid]
+    # staging area used while a property check is being built in a separate worktree;
+    # entries are merged into known_findings.json on integration
+    extra = os.path.join(VERIF, 'known_findings.d', pid + '.json')
+    if os.path.exists(extra):
+        found += [e for e in json.load(open(extra))['findings'] if e['property'] == pid]
+    return found
 
 
 # ---------------------------------------------------------------- main flows
